@@ -89,20 +89,22 @@ Definition exec_op (o : op) (s : state) : result state :=
   | MStream =>
       let a := g 12%nat in
       if negb (u32max_ok a) then Err (MemAddr a) s
+      else if negb (u32max_ok (a + 1)) then Err (MemAddr (a + 1)) s
       else let w0 := mem_read s (ctx s) a in
-           let w1 := mem_read s (ctx s) (wrap32 (a + 1)) in
-           Ok (replace_top 13 (rev w1 ++ rev w0 ++ gets s 8 4 ++ [wrap32 (a + 2)]) s)
+           let w1 := mem_read s (ctx s) (a + 1) in
+           Ok (replace_top 13 (rev w1 ++ rev w0 ++ gets s 8 4 ++ [a + 2]) s)
   | Pipe =>
       let a := g 12%nat in
       if negb (u32max_ok a) then Err (MemAddr a) s
+      else if negb (u32max_ok (a + 1)) then Err (MemAddr (a + 1)) s
       else match pop_adv_word s with
            | None => Err (AdviceExhausted (clk s)) s
            | Some (w0, rest0) =>
              match pop_adv_word (set_adv s rest0) with
              | None => Err (AdviceExhausted (clk s)) s
              | Some (w1, rest1) =>
-                 let s1 := mem_write (mem_write s (ctx s) a w0) (ctx s) (wrap32 (a + 1)) w1 in
-                 Ok (set_adv (replace_top 13 (rev w1 ++ rev w0 ++ gets s 8 4 ++ [wrap32 (a + 2)]) s1)
+                 let s1 := mem_write (mem_write s (ctx s) a w0) (ctx s) (a + 1) w1 in
+                 Ok (set_adv (replace_top 13 (rev w1 ++ rev w0 ++ gets s 8 4 ++ [a + 2]) s1)
                              rest1)
              end
            end
